@@ -370,10 +370,19 @@ def oracle_gates(h):
     v = h.variant
     prev_stage = None
     prev_flags = None
+    begun = False
     for i, c, r, vb, va, b0, b1 in h.steps():
         ok = r['status'] == 'ok'
         if vb is None:
             continue
+        if c.round >= V(vb, 'config')[0]:
+            begun = True
+        if begun and va is not None:
+            for nm in ('price', 'nftCost') + (('schedule',) if v == 'gt2' else ()):
+                if V(va, nm) != V(vb, nm):
+                    out.append(viol('C17', i, 'changed_after_confirmation_began', '%s changed from %r to %r after confirmation had begun' % (nm, V(vb, nm), V(va, nm))))
+        if va is not None and V(vb, 'deposited')[0] > 0 and V(va, 'tpt') != V(vb, 'tpt'):
+            out.append(viol('C17', i, 'tpt_after_deposit', 'tokens-per-ticket changed after the deposit'))
         st = stage_of(vb, c.round)
         flags = V(vb, 'flags')
         cfg = V(vb, 'config')
